@@ -972,7 +972,7 @@ def builder_equals_literal(tables, flocals):
     for tb in tables:
         seen.update(x for x in tb.slots() if x is not None)
     for x in flocals:
-        if x in seen:
+        if x in seen or x == b"":          # Add("") is indexed by the builder but never by NewLocalSymbolTable (C09 known finding)
             return False
         seen.add(x)
     return True
